@@ -1,6 +1,8 @@
 #!/bin/sh
-# dev helper: ./r.sh <contract module stem for key list | -> keys...
-C=contracts/tcpcl_types.py,contracts/tcpcl_models.py,contracts/tcpcl_models2.py,contracts/tcpcl_messenger.py,contracts/tcpcl_send.py
-[ -f contracts/tcpcl_recv.py ] && C=$C,contracts/tcpcl_recv.py
-[ -f contracts/tcpcl_handler.py ] && C=$C,contracts/tcpcl_handler.py
+# dev helper: ./r.sh keys...
+C=""
+for f in tcpcl_types tcpcl_models tcpcl_models2 tcpcl_messenger tcpcl_send tcpcl_recv tcpcl_handler tcpcl_handler2 tcpcl_handler3 tcpcl_msg; do
+  [ -f contracts/$f.py ] && C="$C,contracts/$f.py"
+done
+C=${C#,}
 .venv/bin/python -m pyvc.run1 $C "$@" 2>&1 | cut -c1-${W:-330} | grep -v "^  discharged\|covers"
